@@ -46,12 +46,12 @@ _p("C02", "bounded exhaustive enumeration of assignments x renderings (generator
    "(4 option forms, long/short/bundled toggles, all item orders, every `--` placement, with and without short names) is parsed by the "
    "real parser - through parse(argc, argv) and, for well-formed tokens, parse(std::vector<user_input>) - and must give back exactly the assignment, "
    "byte for byte and in order, plus typed access for decimal texts; five declarations (short names, long only, prefix-related names, named groups, "
-   "toggles with non-zero defaults)",
+   "toggles with non-zero defaults); every value length 1..300 and every digit count 1..20 on a 62-item declaration in the four spellings",
    "DESIGN.md 6 C02")
 _p("C03", "bounded exhaustive enumeration of source configurations (command line x environment x default x optional) vs reference",
    "model checking of the implementation: all combinations of {given in each spelling, not given} x environment {unbound, unset, empty, "
    "17 byte-level values} x default x optional/required for the three kinds, singly and as ordered pairs in one parser, against the "
-   "reference ranking command line > environment > default including the provided flag and verbatim delivery; second parses on one parser;"
+   "reference ranking command line > environment > default including the provided flag and verbatim delivery; every single configuration also with a stale errno (ERANGE, EINVAL, EDOM) left by the caller; second parses on one parser;"
    "Every enumeration is repeated on a parser object that was used before (incremental declaration through kept references after usage() and warm-up parses, late short names, move assignment over a used parser)",
    "DESIGN.md 6 C03")
 _p("C04", "bounded exhaustive enumeration of byte-level argument vectors with fork-isolated totality oracle + reference accept/reject boundary",
@@ -62,14 +62,14 @@ _p("C04", "bounded exhaustive enumeration of byte-level argument vectors with fo
    "DESIGN.md 6 C04")
 _p("C11", "bounded exhaustive enumeration of toggle declarations x occurrence patterns x environment words; closed-world word enumeration",
    "model checking of the implementation: 96 toggle declarations (short name, reversible, default 0/1/3, env bound, alone / with a second toggle and an option in the same or in different groups) x every vector up to the bound over the occurrence alphabet (counts, "
-   "bundles, --no- in all orders) against the reference; the environment vocabulary is decided as a closed world over every string up "
+   "bundles, --no- in all orders) against the reference; every occurrence count 4..1100 as tokens and in one bundle; the environment vocabulary is decided as a closed world over every string up "
    "to the length bound over the vocabulary's characters, all case variants and all single edits of the 30 documented words;"
    "Every enumeration is repeated on a parser object that was used before (incremental declaration through kept references after usage() and warm-up parses, late short names, move assignment over a used parser)",
    "DESIGN.md 6 C11")
 _p("C12", "bounded exhaustive enumeration of positional configurations x argument vectors x indices vs reference",
    "model checking of the implementation: accepted count {0,1,2,3,unlimited} x greedy x every vector up to the bound over a 14-token "
    "alphabet mixing values, `--`, malformed dash tokens and option spellings; positional list, accept/reject and every index in "
-   "[-m,m-1] (and memory safety for the two indices outside) against the reference; second parses; parser objects that held the "
+   "[-m,m-1] (and memory safety for the two indices outside) against the reference; every number of positionals 4..1100 unlimited / exactly at / one above the accepted count; second parses; parser objects that held the "
    "opposite greedy mode before (move assignment) or were used before their options were declared",
    "DESIGN.md 6 C12")
 _p("C14", "explicit-state search over parse histories on one parser object, differential oracle against a fresh parser",
@@ -101,14 +101,14 @@ TEXT["C06"] = dict(engine="seqmc", design_ref="DESIGN.md 6 C06",
           "instrumented element types) x every operation with every in-range and out-of-range argument, to a fixpoint - i.e. every finite "
           "operation sequence over the alphabet - (aliasing arguments, ranges through random-access, move and single-pass input iterators) plus every position at which an element copy/move/construction can throw; judged: size <= "
           "capacity, capacity fixed, unsatisfiable operations throw and leave the container unchanged, no unfilled slot visible, exact "
-          "element accounting (no leak, no double destroy), moved-from containers usable, no sanitizer report",
+          "element accounting (no leak, no double destroy), moved-from containers usable, no sanitizer report; every range length 0..1100 through range construction, copy, assignment and range append at three capacities",
     note=_FV_NOTE)
 TEXT["C07"] = dict(engine="seqmc", design_ref="DESIGN.md 6 C07",
     technique="explicit-state BFS to a fixpoint over operation histories of the real container against a bounded std::vector reference",
     level="model checking of the implementation: from every reachable concrete state every operation is applied to the real fixed_vector and to "
           "a std::vector bounded by the capacity; after every transition size, [], at, forward and reverse iteration (all six iterator pairs "
           "and nitro::lang::reverse), data, front/back must agree; copies equal and independent, moves transfer the sequence, assignment "
-          "replaces the contents (all pairs of abstract-state representatives)",
+          "replaces the contents (all pairs of abstract-state representatives); every range length 0..1100 through range construction, copy, assignment and range append at three capacities",
     note=_FV_NOTE)
 
 TEXT["C17"] = dict(engine="enum", design_ref="DESIGN.md 6 C17",
@@ -141,7 +141,7 @@ TEXT["C08"] = dict(engine="enum", design_ref="DESIGN.md 6 C08",
           "x every tuple over argument texts that themselves contain braces and placeholders, through operator% and args(...), read by str(), "
           "conversion and operator<<; typed values and stream manipulators; exception messages alone and after every ordered pair of earlier "
           "exceptions (sticky manipulators, nested raise); every history of supply/read/copy/move events up to the history bound on one formatter "
-          "object, judged at every read - text must equal positional, verbatim, never-rescanned substitution and wrong arity must raise",
+          "object, judged at every read; every history of <= 3 changes of the global locale (classic / grouping with '.' and decimal ',' / grouping with blanks) x every tuple of <= 2 typed values, compared with fresh streams after every change - text must equal positional, verbatim, never-rescanned substitution and wrong arity must raise",
     note="trusted: the naive reference scanner; narrow-character formats; for > 3 placeholders only three arguments vary")
 TEXT["C16"] = dict(engine="enum", design_ref="DESIGN.md 6 C16",
     technique="exhaustive enumeration of all pairs, triples and in-place change histories over small member grids",
@@ -158,7 +158,8 @@ TEXT["C19"] = dict(engine="seqmc", design_ref="DESIGN.md 6 C19",
           "failed open / load / failed load / copy / assign / move / call / destroy, to a fixpoint; after every transition the loader's mapping "
           "state (RTLD_NOLOAD) and the dlopen/dlclose balance must equal the reference count per successful open, failed opens and lookups "
           "raise nitro::dl::exception with a diagnostic that a kept copy still carries after later loader calls, symbols call into their own library; "
-          "explored in a release-like (-DNDEBUG) and a debug-like build",
+          "explored in a release-like (-DNDEBUG) and a debug-like build; the whole env value list is run a second time in a set-user-ID copy of the driver "
+          "(secure-execution mode, AT_SECURE = 1; reported as not run where the file system does not honour set-user-ID)",
     note="trusted: link-time interposition of dlopen/dlclose in the harness executable, this image's glibc loader, the reference counting model in checks/C19.cpp")
 
 _LOG_NOTE = ("trusted: the reference interpreter (severity >= compile-time minimum and boolean evaluation of the filter expression) and the recording "
@@ -184,7 +185,7 @@ TEXT["C10"] = dict(engine="enum", design_ref="DESIGN.md 6 C10",
 TEXT["C09"] = dict(engine="schedmc", design_ref="DESIGN.md 6 C09",
     technique="stateless preemption-bounded schedule exploration (iterative context bounding) of real threads under a cooperative scheduler + free-running ThreadSanitizer pass",
     level="model checking of the implementation: 2-4 real threads issuing 1-3 records (one configuration with named streams of non-nested lifetimes) of different length and severity through "
-          "logger<stdout_mt> and logger<StdErrThreaded> are serialised at every interposed pthread_mutex_lock/unlock/trylock and at every byte and "
+          "logger<stdout_mt> and logger<StdErrThreaded> (two configurations per sink with two different logger types - other record, other formatter - sharing the sink's stream) are serialised at every interposed pthread_mutex_lock/unlock/trylock and at every byte and "
           "flush phase of a deliberately non-thread-safe stream buffer; every schedule with at most k preemptions (k iterated 0..3), and - "
           "without any bound - every interleaving up to equality of the whole program state (state hashing at the choice points; all 90 / "
           "24 record orders of 3x2 / 4x1 threads are reached), and every schedule as a first use in a fresh process, runs to completion and its output must be a concatenation of whole records, each exactly "
